@@ -243,4 +243,52 @@ theorem conservative_table (P : Cmp) (objF : ObjDesc → Bool) (nameF : NameDesc
   rw [conservative_name_table P objF nameF schemas conn md k h,
     conservative_object P objF (fun _ => true) schemas conn md]
 
+/-! ## locality of the object filter (object granularity: columns, indexes, constraints, tables) -/
+
+theorem count_filter' {α : Type} [BEq α] [LawfulBEq α] (l : List α) (p : α → Bool) (a : α) :
+    (l.filter p).count a = if p a then l.count a else 0 := by
+  induction l with
+  | nil => simp
+  | cons x r ih =>
+    by_cases hx : p x = true
+    · simp only [List.filter_cons, hx, if_true, List.count_cons, ih]
+      by_cases hxa : (x == a) = true
+      · have : x = a := by simpa using hxa
+        subst this; simp [hx]
+      · simp [hxa]
+    · have hx' : p x = false := by simpa using hx
+      simp only [List.filter_cons, hx', Bool.false_eq_true, if_false, ih, List.count_cons]
+      by_cases hxa : (x == a) = true
+      · have : x = a := by simpa using hxa
+        subst this; simp [hx']
+      · simp [hxa]
+
+/-- **C20.locality.** How often an op occurs in the filtered diff depends on `include_object` only through
+its verdicts on that op's own target and on the table the op lives in: two predicates that agree on those
+two descriptors produce that op equally often - whatever they say about every *other* column, index,
+constraint or table (a rejected column never suppresses, duplicates or changes the ops of its neighbours). -/
+theorem object_locality (P : Cmp) (objF objF' : ObjDesc → Bool) (nameF : NameDesc → Bool)
+    (schemas : List (Option String)) (conn md : List Tbl) (op : Op)
+    (h1 : objF (targetDescOf (visible nameF schemas conn) md op) = objF' (targetDescOf (visible nameF schemas conn) md op))
+    (h2 : objF (tableDescOf (visible nameF schemas conn) md op.key) = objF' (tableDescOf (visible nameF schemas conn) md op.key)) :
+    (diffF P objF nameF schemas conn md).count op = (diffF P objF' nameF schemas conn md).count op := by
+  rw [conservative_object P objF, conservative_object P objF', count_filter', count_filter']
+  simp [objAccepts, h1, h2]
+
+/-- ... in particular an op whose target and table both predicates accept occurs exactly as often as in the
+diff without any object filter. -/
+theorem accepted_op_count (P : Cmp) (objF : ObjDesc → Bool) (nameF : NameDesc → Bool)
+    (schemas : List (Option String)) (conn md : List Tbl) (op : Op)
+    (h : objAccepts objF (visible nameF schemas conn) md op = true) :
+    (diffF P objF nameF schemas conn md).count op = (diffF P (fun _ => true) nameF schemas conn md).count op := by
+  rw [conservative_object P objF, count_filter', h]
+  simp
+
+/-- non-vacuity: two columns to add, one rejected; the accepted one is still added exactly once -/
+example :
+    (diffF ⟨fun _ _ => false, fun _ _ => false, fun _ _ => false, true, fun _ => false⟩
+      (fun d => !(d.ty == .column && d.name == some "a")) (fun _ => true) [none]
+      [⟨none, "t", ["id"], [], [], []⟩] [⟨none, "t", ["id", "a", "b"], [], [], []⟩]).count
+      ⟨.addColumn, none, "t", some "b", ""⟩ = 1 := by decide
+
 end C20
